@@ -226,8 +226,8 @@ def main(run):
     run.assumptions = ["complete dicts and numeric-coded categories", "explicit tree seed",
                        "leaves whose path constraints are contradictory cannot be named by a witness; a key is judged stale only when "
                        "every leaf of the tree could be named (otherwise counted as unjudgeable)"]
-    run.require("ixai/storage/tree_storage.py:TreeStorage._update_data_reservoirs", "ixai/storage/tree_storage.py:TreeStorage.get_path_through_tree",
-                "ixai/imputer/tree_imputer.py:TreeImputer._sample_from_storages", "ixai/imputer/tree_imputer.py:TreeImputer._sample_cat_feature")
+    run.require("ixai/storage/tree_storage.py:TreeStorage.update", "ixai/storage/tree_storage.py:TreeStorage.get_path_through_tree",
+                "ixai/imputer/tree_imputer.py:TreeImputer.impute")
     thorough = run.tier == "thorough"
     sh, nsh = run.shard
     model_calls = []
